@@ -48,7 +48,7 @@ def register_hasher(reg):
           ("C01", "index_advances", "self.index == old(self.index) + 1"),
           ("C01", "true_iff_there_is_a_next_file", "result == (old(self.index) + 1 < len(self.paths))"),
           ("C01", "next_file_opened_at_start",
-           "file_open(self.current) and implies(result, file_tail(self.current) == fs_data(self.paths[self.index]))"),
+           "file_open(self.current) and implies(result, file_tail(self.current) == data_at(self.paths, self.index))"),
           ("C01", "no_next_file_leaves_the_handle_alone", "implies(not result, file_same(self.current, old(self.current)))"),
           ("C01", "paths_unchanged", "self.paths == old(self.paths) and self.piece_length == old(self.piece_length) and self.align == old(self.align)"),
       ])
@@ -96,6 +96,7 @@ def register_hasher_next(reg):
       requires=["self.piece_length > 0", "0 <= self.index", "file_open(self.current)",
                 "implies(self.index >= len(self.paths), file_at_eof(self.current))"],
       returns="bytes",
+      shards=4,
       modifies=["self.index", "self.current"],
       ghost_out={"hashed_sha1": "hashed()"},
       ensures=[
@@ -138,7 +139,7 @@ def register_hasher_init(reg):
       raises={"IndexError": {"when": "len(paths) == 0"}},
       ensures=[
           ("C01", "starts_at_the_beginning_of_the_first_file",
-           "self.index == 0 and file_open(self.current) and file_tail(self.current) == fs_data(self.paths[0])"),
+           "self.index == 0 and file_open(self.current) and file_tail(self.current) == data_at(self.paths, 0)"),
           ("C01", "keeps_its_arguments", "self.paths == paths and self.piece_length == piece_length and self.align == align"),
       ],
       creates={"piece_length": "int", "paths": "list[str]", "align": "bool", "total": "int", "index": "int", "current": "file",
